@@ -1,3 +1,4 @@
 import Model.Time
 import Model.Slots
 import Model.Scan
+import Model.Cli
